@@ -97,7 +97,7 @@ def r2(run):
         if not b.def_.startswith(API):
             continue
         fn = facts.enclosing_fn(b)
-        if fn in DECODE_LAYER_EXCLUDE or b.file() != "src/api.rs":
+        if fn in DECODE_LAYER_EXCLUDE or not (b.file() == "src/api.rs" or b.file().startswith("src/api/")):
             continue
         if "::tests::" in b.def_:
             continue
@@ -407,7 +407,7 @@ def r8(run):
     facts = run.facts
     n = 0
     for b in facts.all_bodies():
-        if not (b.def_.startswith(API) and b.is_coroutine) or b.file() != "src/api.rs":
+        if not (b.def_.startswith(API) and b.is_coroutine) or not (b.file() == "src/api.rs" or b.file().startswith("src/api/")):
             continue
         items = [c for c in b.calls() if c.bb in b.live_blocks() and c.fn in BODY_ITEM_FNS and
                  ("hyper::body::incoming::Incoming" in c.fnx or "BodyDataStream" in c.fnx or "Incoming" in c.fnx)]
